@@ -2243,6 +2243,9 @@ class Matrix(MatrixBase):
 
     def __imatmul__(self, other: 'MatrixBase | AngleBase') -> 'Matrix':
         if isinstance(other, MatrixBase):
+            if other is self:
+                # m @= m, we'd be reading rows that were already overwritten.
+                other = self.copy()
             self._mat_mul(other)
             return self
         elif isinstance(other, AngleBase):
